@@ -260,12 +260,10 @@ class OutgoingRIB(Cache):
         # remove previous announcement if cancelled/replaced before being sent
         prev_route = new_nlri.get(route_index, None)
         if prev_route:
-            prev_route_index = prev_route.index()
-            prev_route_attr_index = prev_route.attributes.index()
-            attr_af_nlri.setdefault(prev_route_attr_index, {}).setdefault(route_family, RIBdict({})).pop(
-                prev_route_index,
-                None,
-            )
+            # earlier announces of this route replaced before being sent are still queued under
+            # their own attributes: none of them may follow the withdraw
+            for per_family in attr_af_nlri.values():
+                per_family.get(route_family, {}).pop(route_index, None)
             # Also remove from _new_nlri since we're withdrawing it
             new_nlri.pop(route_index, None)
 
@@ -336,6 +334,15 @@ class OutgoingRIB(Cache):
         # Note: Cancel logic removed - announce does NOT cancel pending withdraw
         # This allows withdraw+announce sequences to both be sent
         # See plan/plan-announce-cancels-withdraw-optimization.md for future optimization
+
+        # An announce replaced before being sent stays queued under ITS attributes and is sent too.
+        # Updates are generated in the order the attributes were first queued, so when the route goes
+        # back to attributes queued earlier the stale entries would be sent after it and win at the peer
+        prev_route = new_nlri.get(route_index, None)
+        if prev_route and route_attr_index in attr_af_nlri and prev_route.attributes.index() != route_attr_index:
+            for attr_index, per_family in attr_af_nlri.items():
+                if attr_index != route_attr_index:
+                    per_family.get(route_family, {}).pop(route_index, None)
 
         # add the route to the list to be announced
         attr_af_nlri.setdefault(route_attr_index, {}).setdefault(route_family, RIBdict({}))[route_index] = route
